@@ -5,6 +5,7 @@ import (
 	"fmt"
 	"net"
 	"sort"
+	"strconv"
 	"strings"
 	"testing"
 	"time"
@@ -31,14 +32,45 @@ type c11Case struct {
 	SecondRun bool `json:"second_run,omitempty"`
 	// EOFWithData: the transport reports the end of the stream together with the last bytes
 	EOFWithData bool `json:"eof_with_data,omitempty"`
+	// Lines > 0: one more request is appended, SET doc <value>, whose value is that many 64-byte lines ending in CR LF
+	// (kept out of the replay file)
+	Lines int `json:"lines,omitempty"`
+	// Inline: the requests are sent as inline commands (one line of space-separated words each) instead of RESP arrays;
+	// a server that does not speak the inline form rejects them all, one that does must not run a command from a cut line
+	Inline bool `json:"inline,omitempty"`
+}
+
+func c11Doc(lines int) []byte {
+	var b []byte
+	for i := 0; i < lines; i++ {
+		b = append(b, []byte(fmt.Sprintf("line %06d ..................................................\r\n", i))...)
+	}
+	return b
 }
 
 // evalC11 serves the prefix data[:cut]. The reference is the same server fed only
 // the requests that were delivered completely: call log and replies must be equal.
 func evalC11(c c11Case) *Failure {
 	pc := pipeCase{Reqs: c.Reqs, GetMode: c.GetMode, GetValue: c.GetValue}
+	if c.Lines > 0 {
+		pc.Reqs = append(append([][]*resp.Bin{}, c.Reqs...), binPtrs([][]byte{[]byte("SET"), []byte("doc"), c11Doc(c.Lines)}))
+	}
 	vals := pc.values()
 	data, ends := resp.EncodeAll(vals)
+	if c.Inline {
+		// one line per request; a request is complete when its CR LF has been delivered
+		data, ends = nil, nil
+		for _, r := range pc.Reqs {
+			for i, a := range r {
+				if i > 0 {
+					data = append(data, ' ')
+				}
+				data = append(data, *a...)
+			}
+			data = append(data, '\r', '\n')
+			ends = append(ends, len(data))
+		}
+	}
 	if c.Cut < 0 || c.Cut > len(data) {
 		return failf("replay|bad-case", "cut %d outside the %d-byte stream", c.Cut, len(data))
 	}
@@ -246,6 +278,7 @@ func init() {
 func TestC11(t *testing.T) {
 	h := newHarness(t, "C11", "pipelines of 1..5 well-formed requests from the grammar (every command, options, binary arguments) x EVERY byte offset of the encoded stream as the point where the stream ends x {half-close, full close after the last byte, peer already gone (every reply write fails)} x {ordinary transport on a fresh server, transport whose Close reports an error although it closes (as tls.Conn when close_notify cannot be sent), server object started-stopped-started before, transport that reports the end of the stream together with the last bytes}. "+
 		"Plus, on a real TCP connection through the accept loop: N requests with replies of up to 1 MiB each and a partial request, half-close, then a slow reader: all N replies arrive complete. "+
+		"Plus a ~70 KiB value made of CR LF terminated lines cut right behind its embedded line ends, and pipelines of inline commands (lines of words) cut at every offset. "+
 		"Oracle (differential): the handler-call log and the replies equal those of the same server fed only the requests whose last byte lies before the cut; the loop returns, closes the connection and leaves the registry. "+
 		"Non-trivial: the cut lies strictly inside a request and at least one request precedes it. Distinct = distinct (stream, cut, close mode).")
 	defer h.Finish()
@@ -262,6 +295,58 @@ func TestC11(t *testing.T) {
 			h.Report("c11.tcp", c, evalC11TCP(c))
 		}
 	}
+
+	// a value of ~70 KiB made of CR LF terminated lines, cut right behind its embedded CR LFs (and elsewhere)
+	h.Rapid("large-values", h.N(6, 200), func(rt *rapid.T) {
+		c := c11Case{Reqs: [][]*resp.Bin{binPtrs([][]byte{[]byte("PING")})[0:1]}, Lines: rapid.SampledFrom([]int{1030, 1100, 2100}).Draw(rt, "lines")}
+		c.Reqs = [][]*resp.Bin{binPtrs([][]byte{[]byte("PING")})}
+		head := len(resp.Cmd("PING").Bytes()) + len("*3\r\n$3\r\nSET\r\n$3\r\ndoc\r\n$") + len(strconv.Itoa(64*c.Lines)) + 2
+		var cuts []int
+		for _, l := range []int{1, 2, 17, 500, 1023, 1024, 1025, c.Lines - 1, c.Lines} {
+			if l <= c.Lines {
+				cuts = append(cuts, head+64*l)
+			}
+		}
+		for i := 0; i < 12; i++ {
+			cuts = append(cuts, head+64*rapid.IntRange(1, c.Lines).Draw(rt, "line"), head+rapid.IntRange(0, 64*c.Lines+2).Draw(rt, "offset"))
+		}
+		for _, cut := range cuts {
+			for _, mode := range []string{"half", "full"} {
+				cc := c
+				cc.Cut, cc.Close = cut, mode
+				h.Col.Case(true, []byte(fmt.Sprint("doc", c.Lines, cut, mode)), "large-value", "close:"+mode)
+				h.Fail(rt, "c11.cut", cc, evalC11(cc))
+			}
+		}
+	})
+
+	// inline commands (lines of words instead of RESP arrays), cut at every offset
+	h.Rapid("inline", h.N(60, 2000), func(rt *rapid.T) {
+		c := c11Case{Inline: true}
+		for i, n := 0, rapid.IntRange(1, 3).Draw(rt, "n"); i < n; i++ {
+			words := rapid.SampledFrom([][]string{{"SET", "balance", "1000000"}, {"GET", "balance"}, {"INCRBY", "n", "250"}, {"DEL", "a", "bb", "ccc"}, {"PING"}, {"EXPIRE", "k", "3600"}, {"LPUSH", "l", "x1", "x22"}}).Draw(rt, "words")
+			var bs [][]byte
+			for _, w := range words {
+				bs = append(bs, []byte(w))
+			}
+			c.Reqs = append(c.Reqs, binPtrs(bs))
+		}
+		total := 0
+		for _, r := range c.Reqs {
+			for _, a := range r {
+				total += len(*a) + 1
+			}
+			total++
+		}
+		for cut := 0; cut <= total; cut++ {
+			for _, mode := range []string{"half", "full"} {
+				cc := c
+				cc.Cut, cc.Close = cut, mode
+				h.Col.Case(true, []byte(fmt.Sprint("inline", pipeCase{Reqs: c.Reqs}.strings(), cut, mode)), "inline-commands", "close:"+mode)
+				h.Fail(rt, "c11.cut", cc, evalC11(cc))
+			}
+		}
+	})
 
 	h.Rapid("cuts", h.N(500, 6000), func(rt *rapid.T) {
 		g := &cmdspec.G{T: rt, Avoid: h.Avoid}
